@@ -21,9 +21,20 @@
       is equal.
     Every theorem is conditional on the call returning ([= Ok _]): on requested
     ranges that leave an image the code panics (slice bounds), which the model
-    reproduces as [Panic]. *)
+    reproduces as [Panic].
+
+    Image OBJECTS (Model/DiffObjs.v, theorems [C20_object_*] / [C20_session_*]
+    at the end): [image] is a [*biosimage.BIOSImage] with its state ([content],
+    the parse cache [cache], and [pfact], the contract of parsing the content);
+    [consistent im]: a filled cache holds what parsing the content gives (true
+    of every object built by New / NewFromParsed, kept by every call).
+    [step_with size_content srt pool o]: one call ([OpParse], [OpSize],
+    [OpDiff], [OpAnalyze]) on a pool of objects, giving the new pool and the
+    result; [after_with size_content srt pool ops]: the pool after the history
+    [ops]; [fresh]: the same image as a never used object.  [size_content] is
+    the model of [BIOSImage.Size()] (length of Content). *)
 From Coq Require Import Sorting.Sorted.
-From CSS Require Import Lib.Base Model.Diff Proofs.Diff.
+From CSS Require Import Lib.Base Model.Diff Model.DiffObjs Proofs.Diff Proofs.DiffObjs.
 
 Theorem C20_sort_instance : sort_contract isort.
 Proof. exact isort_contract. Qed.
@@ -266,3 +277,119 @@ Example C20_analyze_example :
     map e_rel (r_entries rep) = [[(0, [0])]; [(2, [0])]] /\
     r_changed rep = 6 /\ r_first rep = ex_base + 1 /\ r_hd rep = 28 /\ r_hdf rep = 9.
 Proof. exact ex_analyze. Qed.
+
+(** ** Image objects and sessions
+
+    [Diff] / [Analyze] called on objects in any state are the calls on the
+    contents of the objects (so every theorem above holds for them). *)
+Theorem C20_object_diff_is_content_call :
+  forall srt ranges mp g b ign,
+    diff_obj_with size_content srt ranges mp g b ign
+    = diff_with srt ranges mp (content g) (content b) ign.
+Proof. exact diff_obj_content. Qed.
+Print Assumptions C20_object_diff_is_content_call.
+
+Theorem C20_object_analyze_is_content_call :
+  forall srt ranges mp ms g b,
+    snd (analyze_obj_with size_content srt ranges mp ms g b)
+    = analyze_with srt ranges mp ms (content g) (content b) (parsed_ok (parse_img g)).
+Proof. exact analyze_obj_content. Qed.
+Print Assumptions C20_object_analyze_is_content_call.
+
+(** History independence: after ANY history of Parse / Size / Diff / Analyze
+    calls on a pool of objects, a call returns what it returns on never used
+    objects holding the same images. *)
+Theorem C20_session_history_independent :
+  forall srt pool ops o,
+    Forall consistent pool ->
+    snd (step_with size_content srt (after_with size_content srt pool ops) o)
+    = snd (step_with size_content srt (map fresh pool) o).
+Proof. exact session_history_independent. Qed.
+Print Assumptions C20_session_history_independent.
+
+(** No call changes an image. *)
+Theorem C20_session_images_unchanged :
+  forall srt pool ops,
+    Forall consistent pool ->
+    map content (after_with size_content srt pool ops) = map content pool.
+Proof. exact session_images_unchanged. Qed.
+Print Assumptions C20_session_images_unchanged.
+
+(** A Diff / Analyze call anywhere in a session is the call of Model/Diff.v on
+    the bytes the two objects were built from ([parses]: whether the good
+    image's bytes parse). *)
+Theorem C20_session_diff_is_content_call :
+  forall srt pool ops ranges mp g b ign ig ib,
+    Forall consistent pool -> nth_error pool g = Some ig -> nth_error pool b = Some ib ->
+    snd (step_with size_content srt (after_with size_content srt pool ops) (OpDiff ranges mp g b ign))
+    = RDiff (diff_with srt ranges mp (content ig) (content ib) ign).
+Proof. exact session_diff_is_content_call. Qed.
+Print Assumptions C20_session_diff_is_content_call.
+
+Theorem C20_session_analyze_is_content_call :
+  forall srt pool ops ranges mp ms g b ig ib,
+    Forall consistent pool -> nth_error pool g = Some ig -> nth_error pool b = Some ib ->
+    snd (step_with size_content srt (after_with size_content srt pool ops) (OpAnalyze ranges mp ms g b))
+    = RAnalyze (analyze_with srt ranges mp ms (content ig) (content ib) (parses ig)).
+Proof. exact session_analyze_is_content_call. Qed.
+Print Assumptions C20_session_analyze_is_content_call.
+
+(** The first sentence of the property, call by call in every session: sorted
+    and disjoint; inside a merged requested range and maximal in it; non-empty,
+    starting at a differing non-ignored pair, holding no equal non-ignored
+    pair; covering every differing non-ignored pair — all with respect to the
+    bytes the objects were built from. *)
+Theorem C20_session_diff_exact :
+  forall srt pool ops ranges mp g b ign ig ib out,
+    sort_contract srt ->
+    Forall consistent pool -> nth_error pool g = Some ig -> nth_error pool b = Some ib ->
+    Forall u64r ranges -> mapper_ok mp (content ig) (content ib) ->
+    snd (step_with size_content srt (after_with size_content srt pool ops) (OpDiff ranges mp g b ign))
+      = RDiff (Ok out) ->
+    StronglySorted before out /\
+    (forall r, In r out ->
+      (exists m, In m (sort_and_merge srt ranges) /\ within r m /\
+         (off r + len r = off m + len m \/
+          (off r + len r < off m + len m /\
+           equal_nonign ign mp (content ig) (content ib) (off r + len r)))) /\
+      0 < len r /\
+      diff_nonign ign mp (content ig) (content ib) (off r) /\
+      (forall a, inr a r -> ~ equal_nonign ign mp (content ig) (content ib) a)) /\
+    (forall m a, In m (sort_and_merge srt ranges) -> inr a m ->
+      diff_nonign ign mp (content ig) (content ib) a -> exists r, In r out /\ inr a r).
+Proof. exact session_diff_exact. Qed.
+Print Assumptions C20_session_diff_exact.
+
+(** The theorems above depend on [Size()] being the length of Content: with a
+    size taken from the parsed buffer of a parsed object (NOT the code; the
+    variant [size_parsed_buffer]) the same question asked before and after
+    [Parse] of a container image gets two answers, and the second reports a
+    range holding an equal byte pair.  The faithful model gives one answer. *)
+Theorem C20_object_size_matters_witness :
+  Forall consistent wit_pool /\
+  run_with size_content isort wit_pool [wit_q; OpParse 0; wit_q]
+    = [RDiff (Ok [mkR (wit_base + 3) 1]); RParse true; RDiff (Ok [mkR (wit_base + 3) 1])] /\
+  run_with size_parsed_buffer isort wit_pool [wit_q; OpParse 0; wit_q]
+    = [RDiff (Ok [mkR (wit_base + 3) 1]); RParse true; RDiff (Ok [mkR (wit_base + 2) 4])] /\
+  inr (wit_base + 2) (mkR (wit_base + 2) 4) /\
+  equal_nonign [] MPhys wit_good wit_bad (wit_base + 2).
+Proof. exact object_size_matters_witness. Qed.
+Print Assumptions C20_object_size_matters_witness.
+
+(** The hypotheses are satisfiable by a non-trivial session: a container image
+    (2 bytes stripped by the parser), an object built by NewFromParsed, an
+    unparsable image; Diff, Analyze (parses the good image), Size, the same
+    Diff again, the roles swapped, Analyze on the unparsable image. *)
+Example C20_session_example :
+  Forall consistent ex_pool /\
+  run ex_pool [wit_q; OpAnalyze [mkR (wit_base + 3) 1] MPhys [[mkR (wit_base + 3) 2]] 0 1; OpSize 0; wit_q;
+               OpDiff [mkR (wit_base + 0) 6] MPhys 1 0 [7]; OpParse 2;
+               OpAnalyze [mkR (wit_base + 3) 1] MPhys [] 2 0]
+  = [RDiff (Ok [mkR (wit_base + 3) 1]);
+     RAnalyze (Ok (mkRep [mkE (mkR (wit_base + 3) 1) 2 2 [(0, [0])]] (wit_base + 3) 1 2 2));
+     RSize 6;
+     RDiff (Ok [mkR (wit_base + 3) 1]);
+     RDiff (Ok []);
+     RParse false;
+     RAnalyze (Err 1)].
+Proof. exact ex_session. Qed.
